@@ -97,7 +97,8 @@ def run_regrid(ctx, n):
         step, xs, ys = gen_series(ctx.rng)
         inp = {"function": "regrid.regrid", "x": xs, "y": ys, "step": step}
         try:
-            got = [(int(k), float(x)) for k, x in rg.regrid(np.array(xs), np.array(ys), step)]
+            with common.session_logging(ctx.rng, 0.15):
+                got = [(int(k), float(x)) for k, x in rg.regrid(np.array(xs), np.array(ys), step)]
             err = None
         except Exception as e:  # noqa
             got, err = None, "%s: %s" % (type(e).__name__, e)
